@@ -6,7 +6,7 @@
 //! independent classifier and with conforming decoders.
 
 use crux_http::http::StatusCode;
-use crux_http::protocol::{HttpHeader, HttpResponse, HttpResult};
+use crux_http::protocol::HttpResult;
 use crux_http::{HttpError, Response};
 use mc_kit::{catch, par_map, Deadline, PanicInfo, Reporter, Tier, Violation};
 use serde_json::{json, Value};
@@ -635,25 +635,21 @@ pub struct CaseResult {
 fn shell_answer(ix: CaseIx, al: &Alphabets) -> HttpResult {
     match ix {
         CaseIx::ShellError { error, .. } => HttpResult::Err(al.errors[error].clone()),
-        CaseIx::Scalar { status, body, .. } => HttpResult::Ok(HttpResponse {
+        CaseIx::Scalar { status, body, .. } => HttpResult::Ok(crate::app::shell_response(
             status,
-            headers: vec![HttpHeader { name: "content-type".into(), value: "application/json".into() }],
-            body: al.scalar_bodies[body].1.clone(),
-        }),
-        CaseIx::AsyncJson { status, body } => HttpResult::Ok(HttpResponse {
+            [("content-type", "application/json")],
+            al.scalar_bodies[body].1.clone(),
+        )),
+        CaseIx::AsyncJson { status, body } => HttpResult::Ok(crate::app::shell_response(
             status,
-            headers: vec![HttpHeader { name: "content-type".into(), value: "application/json".into() }],
-            body: al.bodies[body].1.clone(),
-        }),
-        CaseIx::Response { status, headers, body, .. } => HttpResult::Ok(HttpResponse {
+            [("content-type", "application/json")],
+            al.bodies[body].1.clone(),
+        )),
+        CaseIx::Response { status, headers, body, .. } => HttpResult::Ok(crate::app::shell_response(
             status,
-            headers: al.header_sets[headers]
-                .1
-                .iter()
-                .map(|(n, v)| HttpHeader { name: n.to_string(), value: v.to_string() })
-                .collect(),
-            body: al.bodies[body].1.clone(),
-        }),
+            al.header_sets[headers].1.iter().copied(),
+            al.bodies[body].1.clone(),
+        )),
     }
 }
 
@@ -728,6 +724,11 @@ pub fn run_case(ix: CaseIx, al: &Alphabets, verbose: bool) -> CaseResult {
                 (None, Obs::Err(HttpError::Url(_))) => "err-url".to_string(),
                 (None, Obs::Err(HttpError::Io(_))) => "err-io".to_string(),
                 (None, Obs::Err(HttpError::Timeout)) => "err-timeout".to_string(),
+                // a variant this engine does not know: its own outcome class, never merged
+                // with a known one (a shell error is compared by equality, a JSON refusal must
+                // be HttpError::Json, so it cannot pass for either)
+                #[allow(unreachable_patterns)]
+                (None, Obs::Err(other)) => format!("err-unknown-variant:{other:?}"),
             };
             CaseResult { transitions, validated: true, outcome, finding, trace }
         }
